@@ -28,11 +28,11 @@ MaxPoolNorm(A, q) ==
       nc == NComp(A)
       sa == Strides(A.dims)
   IN [A EXCEPT !.dims = od,
-        !.val = [n \in 1..(ProdSeq(od) * nc) |->
+        !.val = Eager([n \in 1..(ProdSeq(od) * nc) |->
            LET xo == Unlin((n - 1) \div nc, od, Strides(od))
                pp == PatchPix(A, xo, q)
                mx == CHOOSE r \in 1..Len(pp) : \A r2 \in 1..Len(pp) : PixNormSq(A, pp[r2]) <= PixNormSq(A, pp[r])
-           IN A.val[Lin(pp[mx], sa) * nc + ((n - 1) % nc) + 1]]]
+           IN A.val[Lin(pp[mx], sa) * nc + ((n - 1) % nc) + 1]])]
 
 Unpool(A, q) ==
   LET D  == DimI(A)
@@ -40,9 +40,9 @@ Unpool(A, q) ==
       nc == NComp(A)
       sa == Strides(A.dims)
   IN [A EXCEPT !.dims = od,
-        !.val = [n \in 1..(ProdSeq(od) * nc) |->
+        !.val = Eager([n \in 1..(ProdSeq(od) * nc) |->
            LET x == Unlin((n - 1) \div nc, od, Strides(od))
-           IN A.val[Lin([j \in 1..D |-> x[j] \div q], sa) * nc + ((n - 1) % nc) + 1]]]
+           IN A.val[Lin([j \in 1..D |-> x[j] \div q], sa) * nc + ((n - 1) % nc) + 1]])]
 
 (* C08, pooling part: each operation commutes with every g and with translations by multiples of q *)
 UnitVec(D, j, c) == [i \in 1..D |-> IF i = j THEN c ELSE 0]
